@@ -5,6 +5,7 @@ import MitmVerif.Model.C38
 import MitmVerif.Gen.C38
 import MitmVerif.Lemmas.C38_Conv
 import MitmVerif.Lemmas.C38_Host
+import MitmVerif.Lemmas.C38_HostValid
 import MitmVerif.Lemmas.C38_Old
 import MitmVerif.Lemmas.C38_State
 namespace MitmVerif.Props.C38
@@ -330,6 +331,10 @@ theorem host_decode_valid_utf8 (b : Bytes) (h : ∀ cp ∈ MitmVerif.C35.native 
     bsrUtf8 b = b := bsrUtf8_valid b h
 
 theorem host_decode_ascii (b : Bytes) (h : ∀ c ∈ b, c.toNat < 0x80) : bsrUtf8 b = b := bsrUtf8_ascii b h
+
+/-- **host_decode_is_str.** Whatever bytes an old file holds as a host name, what 18→19 puts in their place is a str:
+    valid UTF-8 (so the migrated flow can be saved again and read back by `tnetstring`, whose str payloads are strict). -/
+theorem host_decode_is_str (b : Bytes) : utf8Valid (bsrUtf8 b) = true := bsrUtf8_output_valid b
 
 theorem host_decode_escape (n : Nat) (h : 0x80 ≤ n ∧ n ≤ 0xFF) :
     bsrCp (0xDC00 + n) = [0x5c, 0x78, hexd (n / 16), hexd (n % 16)] := bsrCp_escape n h
